@@ -297,6 +297,14 @@ def _rewrite_iters(body: str, rules: Counter) -> str:
                         new = (f'let __kids = children_vec(&{t}, {arg}); let mut __i: usize = 0; while __i < __kids.len() {{ '
                                f'let {x} = __kids[__i];' + inner + ' __i += 1; }')
                     rules['I7'] += 1
+            # I8: for X in T.terminal_indices().collect_vec() {   (index order of the arena, via a trusted helper)
+            if new is None:
+                mt = re.fullmatch(r'for (\w+) in ([\w\.]+)\.terminal_indices\(\)\.collect_vec\(\)', h)
+                if mt:
+                    x, t = mt.groups()
+                    new = (f'let __v = terminal_indices_vec(&{t}); let mut __i: usize = 0; while __i < __v.len() {{ '
+                           f'let {x} = __v[__i];' + inner + ' __i += 1; }')
+                    rules['I8'] += 1
             # I10: for _ in 0..E {   (Verus wants a named loop variable)
             if new is None:
                 mt = re.fullmatch(r'for _ in (.+)', h)
